@@ -177,13 +177,21 @@ type c05Loop struct {
 	PreNS    int64 `json:"pre_ns"`     // advance the clock before starting (varies the PRNG seed, which is the clock)
 	CancelNS int64 `json:"cancel_ns"`  // cancel this long after the last observed request
 	SlowNS   int64 `json:"slow_ns"`    // consumer latency per request (scheduler busy)
+	StallAt  int   `json:"stall_at"`   // >0: the consumer does not accept request number stall_at for stall_ns (process paused, scheduler blocked)
+	StallNS  int64 `json:"stall_ns"`
 }
 
 func c05LoopProp(t *testing.T, k *verifkit.Kit) func(c c05Loop) error {
 	return func(c c05Loop) error {
 		min, max := time.Duration(c.MinNS), time.Duration(c.MaxNS)
-		k.Record(c, max > 16*time.Second || c.MinNS%int64(time.Second) != 0 || c.MaxNS%int64(time.Second) != 0,
-			fmt.Sprintf("loop-waits/50=%d", c.Waits/50))
+		stall := "no-stall"
+		if c.StallAt > 0 && c.StallNS > c.MaxNS {
+			stall = "stall-longer-than-max"
+		} else if c.StallAt > 0 {
+			stall = "short-stall"
+		}
+		k.Record(c, max > 16*time.Second || c.MinNS%int64(time.Second) != 0 || c.MaxNS%int64(time.Second) != 0 || stall != "no-stall",
+			fmt.Sprintf("loop-waits/50=%d", c.Waits/50), stall)
 		var verr error
 		leaked, pan := bubble(t, func() {
 			time.Sleep(time.Duration(c.PreNS))
@@ -196,6 +204,9 @@ func c05LoopProp(t *testing.T, k *verifkit.Kit) func(c c05Loop) error {
 			var stamps []time.Time
 			fail := func(err error) { verr = err; cancel(); <-exited }
 			for len(stamps) <= c.Waits {
+				if c.StallAt > 0 && len(stamps) == c.StallAt {
+					time.Sleep(time.Duration(c.StallNS)) // the loop is held up offering this request
+				}
 				select {
 				case ip := <-ipC:
 					if ip != vkAllNodes {
@@ -206,7 +217,7 @@ func c05LoopProp(t *testing.T, k *verifkit.Kit) func(c c05Loop) error {
 					if c.SlowNS > 0 {
 						time.Sleep(time.Duration(c.SlowNS))
 					}
-				case <-time.After(max + 2*time.Second + time.Duration(c.SlowNS)):
+				case <-time.After(max + 2*time.Second + time.Duration(c.SlowNS) + time.Duration(c.StallNS)):
 					fail(verifkit.Violf("C05/loop-stopped", "no RA request within max_interval+2s after %d requests (min=%v max=%v)", len(stamps), min, max))
 					return
 				case <-exited:
@@ -215,7 +226,20 @@ func c05LoopProp(t *testing.T, k *verifkit.Kit) func(c c05Loop) error {
 				}
 			}
 			for i := 1; i < len(stamps); i++ {
-				gap := stamps[i].Sub(stamps[i-1]) // the consumer is never slower than the shortest wait
+				gap := stamps[i].Sub(stamps[i-1]) // the consumer is otherwise never slower than the shortest wait
+				if c.StallAt > 0 && i == c.StallAt && time.Duration(c.StallNS) > 0 {
+					// this request was offered on time but accepted late: only the lower bound applies
+					lo := min.Truncate(time.Second)
+					if i-1 < 3 && lo > 16*time.Second {
+						lo = 16 * time.Second
+					}
+					if gap < lo {
+						fail(verifkit.Violf("C05/wait-out-of-bounds", "min=%v max=%v index=%d: wait %v below %v", min, max, i-1, gap, lo))
+						return
+					}
+					continue
+				}
+				// (in particular the wait that follows a stall is chosen afresh: the loop does not "catch up")
 				if err := c05Bounds(min, max, i-1, gap); err != nil {
 					fail(err)
 					return
@@ -253,12 +277,20 @@ func c05LoopProp(t *testing.T, k *verifkit.Kit) func(c c05Loop) error {
 
 func c05GenLoop(t *rapid.T) c05Loop {
 	f := c05GenFn(t)
-	return c05Loop{MinNS: f.MinNS, MaxNS: f.MaxNS,
+	c := c05Loop{MinNS: f.MinNS, MaxNS: f.MaxNS,
 		Waits:    rapid.IntRange(3, 200).Draw(t, "waits"),
 		PreNS:    rapid.Int64Range(0, int64(time.Hour)).Draw(t, "pre"),
 		CancelNS: rapid.SampledFrom([]int64{0, 1, int64(time.Second), f.MinNS, f.MaxNS}).Draw(t, "cancel"),
 		SlowNS:   rapid.SampledFrom([]int64{0, 0, 0, int64(time.Millisecond), int64(2 * time.Second)}).Draw(t, "slow"),
 	}
+	if rapid.Bool().Draw(t, "stall") {
+		c.StallAt = rapid.IntRange(1, 8).Draw(t, "stallat")
+		c.StallNS = rapid.SampledFrom([]int64{1, f.MinNS / 2, f.MaxNS, 3*f.MaxNS + f.MaxNS/2, 10 * f.MaxNS}).Draw(t, "stallns")
+		if c.Waits < c.StallAt+3 {
+			c.Waits = c.StallAt + 3
+		}
+	}
+	return c
 }
 
 func TestVerif_C05(t *testing.T) {
